@@ -615,6 +615,9 @@ impl AtomicPosition {
 
     pub(crate) fn dec(&self, delta: u64) {
         self.pos.fetch_sub(delta, Ordering::SeqCst);
+        if delta > 0 {
+            self.rewound.store(1, Ordering::Release);
+        }
     }
 
     pub(crate) fn set(&self, pos: u64) {
